@@ -63,6 +63,7 @@ Section Defaults.
   Hypothesis interp_defaults : forall op attrs aenv subs ins k,
       interp op (resolve aenv (add_attrs attrs (op_defaults tbl op))) subs ins k = interp op (resolve aenv attrs) subs ins k.
   Notation Pres := (Pres T absent tensor_val interp).
+  Notation vcase := Proofs.vcase.
 
   (* the table only holds data attributes, and no entry for an operator that is a model-local function *)
   Definition TblOK (m : model) : Prop :=
@@ -72,35 +73,41 @@ Section Defaults.
   Lemma add_defaults_nil n : op_defaults tbl (n_op n) = [] -> add_defaults_node tbl n = n.
   Proof. intros E. unfold add_defaults_node. rewrite E. unfold add_attrs. simpl. destruct n; reflexivity. Qed.
 
-  Lemma all_nodes_add m : all_nodes (add_default_attrs tbl m) = map (add_defaults_node tbl) (all_nodes m).
+  Section Keys.
+  Variable keys : list vid.
+  Notation hK := (add_defaults_at tbl keys).
+  Lemma hK_outs n : n_outs (hK n) = n_outs n.
+  Proof. unfold add_defaults_at. destruct (memN (node_key n) keys); reflexivity. Qed.
+
+  Lemma all_nodes_add m : all_nodes (add_default_attrs_keys tbl keys m) = map hK (all_nodes m).
   Proof.
-    unfold all_nodes, add_default_attrs. rewrite graphs_of_map_graphs, flat_map_map, map_flat_map. reflexivity.
+    unfold all_nodes, add_default_attrs_keys. rewrite graphs_of_map_graphs, flat_map_map, map_flat_map. reflexivity.
   Qed.
 
-  Theorem add_default_attrs_pres m : WF m -> NoOpFunc m -> TblOK m -> Pres m (add_default_attrs tbl m).
+  Theorem add_default_attrs_keys_pres m : WF m -> NoOpFunc m -> TblOK m -> Pres m (add_default_attrs_keys tbl keys m).
   Proof.
     intros HW HN [Hdata Hnf].
-    set (m' := add_default_attrs tbl m).
-    assert (Hnodes : all_nodes m' = map (add_defaults_node tbl) (filter (fun _ => true) (all_nodes m))).
+    set (m' := add_default_attrs_keys tbl keys m).
+    assert (Hnodes : all_nodes m' = map hK (filter (fun _ => true) (all_nodes m))).
     { unfold m'. rewrite all_nodes_add, filter_true. reflexivity. }
     assert (Hprod : forall u, find_prod (all_nodes m') u =
-                              match find_prod (all_nodes m) u with Some (n, i) => Some (add_defaults_node tbl n, i) | None => None end).
-    { intros u. rewrite Hnodes. rewrite (find_prod_map_filter _ (add_defaults_node tbl) (fun _ => true)); [|reflexivity|apply (wf_outs m HW)].
+                              match find_prod (all_nodes m) u with Some (n, i) => Some (hK n, i) | None => None end).
+    { intros u. rewrite Hnodes. rewrite (find_prod_map_filter _ hK (fun _ => true)); [|apply hK_outs|apply (wf_outs m HW)].
       destruct (find_prod (all_nodes m) u) as [[n i]|]; reflexivity. }
     assert (Hinits : all_inits m' = all_inits m).
-    { unfold m', all_inits, add_default_attrs. rewrite graphs_of_map_graphs, flat_map_map. reflexivity. }
+    { unfold m', all_inits, add_default_attrs_keys. rewrite graphs_of_map_graphs, flat_map_map. reflexivity. }
     assert (Hforms : all_formals m' = all_formals m).
-    { unfold m', all_formals, add_default_attrs. rewrite graphs_of_map_graphs, flat_map_map. reflexivity. }
+    { unfold m', all_formals, add_default_attrs_keys. rewrite graphs_of_map_graphs, flat_map_map. reflexivity. }
     assert (Houts : all_outs m' = all_outs m).
-    { unfold all_outs. rewrite Hnodes, filter_true, flat_map_map. reflexivity. }
+    { unfold all_outs. rewrite Hnodes, filter_true, flat_map_map. apply flat_map_ext'. intros n _. apply hK_outs. }
     constructor.
     - constructor.
       + rewrite Houts. apply (wf_outs m HW).
       + intros v Hv. rewrite Houts. rewrite Hforms in Hv. apply (wf_formal m HW v Hv).
       + intros v Hv. rewrite Houts. rewrite Hinits in Hv. apply (wf_init_prod m HW v Hv).
-      + intros n Hn. rewrite Hnodes, filter_true in Hn. apply in_map_iff in Hn. destruct Hn as [n0 [<- Hn0]]. simpl. apply (wf_nonempty m HW n0 Hn0).
+      + intros n Hn. rewrite Hnodes, filter_true in Hn. apply in_map_iff in Hn. destruct Hn as [n0 [<- Hn0]]. rewrite hK_outs. apply (wf_nonempty m HW n0 Hn0).
       + rewrite Hinits. apply (wf_inits_nodup m HW).
-    - intros op Hop. unfold m', add_default_attrs, map_graphs. simpl. rewrite find_func_map, (HN op Hop). reflexivity.
+    - intros op Hop. unfold m', add_default_attrs_keys, map_graphs. simpl. rewrite find_func_map, (HN op Hop). reflexivity.
     - exact Hforms.
     - intros env r He [f E]. exists f. unfold den_list in *.
       assert (HS : Sim T tensor_val interp (fun _ => True) (formal_of m) (fun v => v) (sem_of m) (sem_of m')).
@@ -110,27 +117,29 @@ Section Defaults.
           + eapply VInit; simpl; eauto. rewrite Hinits. exact Ei.
           + destruct (find_prod (all_nodes m) v) as [[n i]|] eqn:Ep; [|apply VNone; simpl; assumption].
             destruct (find_prod_In _ _ _ _ Ep) as [Hn_in _].
-            destruct (op_defaults tbl (n_op n)) as [|d ds] eqn:Ed.
-            * eapply VNode with (n := n) (i := i) (n' := n); simpl; eauto.
-              -- rewrite Hinits. exact Ei.
-              -- rewrite Hprod, Ep, (add_defaults_nil n Ed). reflexivity.
-              -- constructor; try reflexivity. exists (map (option_map (fun v => v)) (n_ins n)), O, O. simpl. rewrite !app_nil_r. split; [reflexivity|].
-                 rewrite <- (map_id (n_ins n)) at 1. apply map_ext. intros [w|]; reflexivity.
-            * eapply VNodeAttrs with (n := n) (i := i) (n' := add_defaults_node tbl n); simpl; eauto.
-              -- rewrite Hinits. exact Ei.
-              -- rewrite Hprod, Ep. reflexivity.
-              -- exists (map (option_map (fun v => v)) (n_ins n)), O, O. simpl. rewrite !app_nil_r. split; [reflexivity|].
-                 rewrite <- (map_id (n_ins n)) at 1. apply map_ext. intros [w|]; reflexivity.
-              -- apply Hnf; [exact Hn_in | rewrite Ed; discriminate].
-              -- intros aenv. apply attr_graphs_add. apply Hdata.
-        - intros g gr Eg. simpl in *. unfold m', add_default_attrs, map_graphs. simpl. rewrite alookup_map_snd, Eg. simpl.
+            assert (Hsame : hK n = n -> vcase T tensor_val interp (fun _ => True) (formal_of m) (fun v => v) (sem_of m) (sem_of m') v).
+            { intros Hh. eapply VNode with (n := n) (i := i) (n' := n); simpl; eauto.
+              - rewrite Hinits. exact Ei.
+              - rewrite Hprod, Ep, Hh. reflexivity.
+              - constructor; try reflexivity. exists (map (option_map (fun v => v)) (n_ins n)), O, O. simpl. rewrite !app_nil_r. split; [reflexivity|].
+                rewrite <- (map_id (n_ins n)) at 1. apply map_ext. intros [w|]; reflexivity. }
+            unfold add_defaults_at in Hsame, Hprod. destruct (memN (node_key n) keys) eqn:Ek; [|apply Hsame; reflexivity].
+            destruct (op_defaults tbl (n_op n)) as [|d ds] eqn:Ed; [apply Hsame; apply add_defaults_nil; exact Ed|].
+            eapply VNodeAttrs with (n := n) (i := i) (n' := add_defaults_node tbl n); simpl; eauto.
+            * rewrite Hinits. exact Ei.
+            * rewrite Hprod, Ep, Ek. reflexivity.
+            * exists (map (option_map (fun v => v)) (n_ins n)), O, O. simpl. rewrite !app_nil_r. split; [reflexivity|].
+              rewrite <- (map_id (n_ins n)) at 1. apply map_ext. intros [w|]; reflexivity.
+            * apply Hnf; [exact Hn_in | rewrite Ed; discriminate].
+            * intros aenv. apply attr_graphs_add. apply Hdata.
+        - intros g gr Eg. simpl in *. unfold m', add_default_attrs_keys, map_graphs. simpl. rewrite alookup_map_snd, Eg. simpl.
           eexists. split; [reflexivity|]. simpl. rewrite map_id. auto.
         - intros g gr Eg. simpl in Eg. split; [eapply formal_sub; eauto | apply Forall_forall; auto].
-        - intros op fn Ef. simpl in *. unfold m', add_default_attrs, map_graphs. simpl. rewrite find_func_map, Ef. simpl.
+        - intros op fn Ef. simpl in *. unfold m', add_default_attrs_keys, map_graphs. simpl. rewrite find_func_map, Ef. simpl.
           eexists. split; [reflexivity|]. simpl. rewrite map_id. auto.
-        - intros op Ef. simpl in *. unfold m', add_default_attrs, map_graphs. simpl. rewrite find_func_map, Ef. reflexivity.
+        - intros op Ef. simpl in *. unfold m', add_default_attrs_keys, map_graphs. simpl. rewrite find_func_map, Ef. reflexivity.
         - intros op fn Ef. simpl in Ef. split; [eapply formal_func; eauto | apply Forall_forall; auto]. }
-      unfold m' at 2. unfold add_default_attrs, map_graphs, map_nodes, set_nodes. simpl.
+      unfold m' at 2. unfold add_default_attrs_keys, map_graphs, map_nodes, set_nodes. simpl.
       eapply map_opt_impl; [|exact E]. intros x y _ Hy.
       exact (sim_refines T absent tensor_val interp interp_mono interp_identity interp_trailing_absent
                          (fun _ => True) (formal_of m) (fun v => v) (sem_of m) (sem_of m') HS f [] env x y He I Hy).
@@ -138,6 +147,8 @@ Section Defaults.
     - reflexivity.
   Qed.
 
-  Lemma add_default_attrs_signature m : noninit_inputs (add_default_attrs tbl m) = noninit_inputs m.
-  Proof. reflexivity. Qed.
+  End Keys.
+
+  Theorem add_default_attrs_pres fuel m : WF m -> NoOpFunc m -> TblOK m -> Pres m (add_default_attrs tbl fuel m).
+  Proof. intros. unfold add_default_attrs. apply add_default_attrs_keys_pres; assumption. Qed.
 End Defaults.
